@@ -12,11 +12,16 @@ from .common import Disagreement, drive, q, qs, parse_qs, ROOT
 PROP_MODULE = 'PbVerif.Props.C17'
 RULE = ('cases = (optimizer, wrapped method, options, interface (class/functional), x ordering (sorted/rotated/shuffled)); each output '
         'is recomposed from direct calls of the real wrapped method with the reported weights/orders/parameters and must agree; the '
-        'plans (sections, padding, roll-and-slice, first minimum, edge constraints) are diffed with the Lean planners; non-trivial = '
+        'plans (sections, padding, roll-and-slice, first minimum, edge constraints) are diffed with the Lean planners; collab_pls (1-D and 2-D, 1-4 data '
+        'sets, user weights/tol in method_kwargs, error precedence): the Lean plan is executed on the real wrapped method, compared call by call with '
+        'the recorded calls of the real collab_pls (data, keyword names in order, values bit-exact) and its Lean semantics is run with the recorded '
+        'fits as oracle; non-trivial = '
         'non-default option or unsorted x; distinct by canonical tuple')
 ASSUMPTIONS = [
     'the wrapped method is a black box (recomposition feeds it the same arrays, so equality is expected to rounding 1e-9)',
     'np.linspace(..., dtype=intp) truncation equals exact floor on the generated integer regions',
+    'np.mean(rows, axis=0) adds the rows in order and divides by their number (checked bit-exactly on every average_dataset=False case)',
+    'method.lower() is modelled for ASCII names (String.toLower)',
 ]
 TOL = 1e-9
 
